@@ -121,6 +121,13 @@ def expected_graph(prog, root):
                 for u in heads_of_stmt(prog, body[i], memo):
                     for v in hj:
                         dotted_ok.add((u, v))
+            if sj[0] == "cls":
+                # `C(x).m()` is two calls for dds (the instantiation with a run-time argument, then the method call):
+                # the second one depends on the first, both reach the kept nodes of the class body
+                for u in hj:
+                    for v in hj:
+                        if u != v:
+                            dotted_ok.add((u, v))
     return set(sites) | loads_nodes, solid, dashed - solid, dotted_ok
 
 
